@@ -133,7 +133,10 @@ class Process(metaclass=abc.ABCMeta):
 
         self._parameters = copy.deepcopy(self.defaults)
         self._parameters = deep_merge(self._parameters, parameters)
-        self._schema_override: Schema = self._parameters.get('_schema', {})
+        # (a copy: overrides merged in later belong to this process
+        # alone, not to whoever else holds the parameters' dictionary)
+        self._schema_override: Schema = deep_copy_internal(
+            self._parameters.get('_schema', {}))
         self._parallel = self._parameters.get('_parallel', False)
         self._condition_path: Optional[HierarchyPath] = None
         self._command_result: Any = None
@@ -440,7 +443,7 @@ class Process(metaclass=abc.ABCMeta):
         Args:
             override: The schema override to add.
         """
-        deep_merge(self._schema_override, override)
+        deep_merge(self._schema_override, deep_copy_internal(override))
 
     def ports(self) -> Dict[str, List[str]]:
         """Get ports and each port's variables.
